@@ -109,6 +109,31 @@ def replyFor (client : Bool) (op : Nat) (payload : Bytes) (masks : List Mask) : 
       else if code ≥ 5000 ∨ (1012 ≤ code ∧ code ≤ 1014) then ([], masks, some "open")   -- left open by the property
       else ([], masks, some "proto:")
 
+/-- Judge the handling of one control frame given what was written and the error reported
+    (used by the standalone ControlHandler oracle of C08). -/
+def judgeCtl (client : Bool) (op : Nat) (payload : Bytes) (masks : List Mask) (err : String) (wrBytes : Bytes) : String :=
+  if !(op == 8 || op == 9 || op == 10) then
+    (if err == "notcontrol" && wrBytes.isEmpty then "ok" else "bad:non-control-opcode-not-refused")
+  else
+  let (rb, _, stop) := replyFor client op payload masks
+  match stop with
+  | none => if err != "nil" then s!"bad:handler-failed-{err}" else if wrBytes != rb then "bad:reply-differs-from-RFC" else "ok"
+  | some "open" => "ok"
+  | some "proto:" =>
+    if !isProto err then "bad:invalid-close-not-reported-as-protocol-error" else
+    match parseStream (wrBytes.length + 2) 0 wrBytes [] with
+    | ([f], .clean) =>
+      let pl := f.plain
+      let code := pl.getD 0 0 * 256 + pl.getD 1 0
+      if f.h.op != 8 || !f.h.fin || f.h.len > 125 || f.h.rsv != 0 then "bad:protocol-error-reply-not-a-valid-close-frame"
+      else if f.h.masked != client then "bad:reply-masked-iff-client-violated"
+      else if client && f.h.mask != masks.headD Mask.zero then "bad:reply-mask-not-the-drawn-key"
+      else if !(code == 1002 || code == 1007) || !wfUtf8 (pl.drop 2) then "bad:protocol-error-reply-payload"
+      else "ok"
+    | _ => "bad:protocol-error-reply-not-a-single-frame"
+  | some c =>
+    if wrBytes != rb then "bad:close-reply-differs" else if err != c then s!"bad:close-not-reported-as-{c}" else "ok"
+
 /-- ReadData-family oracle: walks the units of the stream. -/
 def rddOracle (a : List String) (obs : String) : String :=
   match a with
